@@ -43,6 +43,15 @@ def run(ctx):
         s['b']['rcvbuf'] = rng.choice([1, 50, 100, 500, 1000, 2000, 4096, 0])
         if i % 3 == 0:
             s['a']['rcvbuf'] = rng.choice([100, 1000, 4096])
+        if 0 < s['b']['rcvbuf'] <= 100:
+            # tiny windows: a segment per few bytes; keep the trace short (such transfers used to end in the scenario deadline
+            # and were not judged at all before deadline traces were validated)
+            cap, w = 400 if s['b']['rcvbuf'] == 1 else 1500, []
+            for x in s['a']['writes']:
+                x = min(x, cap - sum(w))
+                if x > 0:
+                    w.append(x)
+            s['a']['writes'] = w or [cap]
         s['b']['read_start_ms'] = rng.choice([0, 0, 100, 300])
         s['b']['read_delay_us'] = rng.choice([0, 100, 1000, 5000])
         if i % 5 == 4:
@@ -52,6 +61,9 @@ def run(ctx):
         s['b2a'] = dict(loss=rng.choice([0, 0.05]), hold=rng.choice([0, 0.2, 0.4]), dup=0, budget=rng.choice([2, 6, 12]))
         s['a2b'] = dict(loss=rng.choice([0, 0, 0.05]), hold=rng.choice([0, 0.1]), dup=rng.choice([0, 0.05]), budget=rng.choice([0, 2, 6, 10]),
                         beyond=rng.choice([0, 0.1, 0.3]), coalesce=rng.choice([0, 0.1]))
+        # fabricated segments at the advertised right edge are judged strictly only on the synchronous wire (the spec settles
+        # "did it begin inside the window" when the harness has seen the segment processed)
+        s['sync'] = (i % 2 == 0)
         s['tag'] = 'win%d' % i
         scs.append(s)
     # bulk data in BOTH directions with loss on one of them: the endpoint that holds out-of-order data sends full-sized data
@@ -60,7 +72,7 @@ def run(ctx):
     for k in range(ctx.pick(6, 30)):
         mtu = [576, 1500, 200, 300, 1280, 100][k % 6]
         v = 6 if mtu == 1280 else 4
-        tot = 40 * (mtu - 40)
+        tot = (14 if not ctx.thorough() else 40) * (mtu - 40)
         lossy = ('b2a', 'a2b')[k % 2]
         sc = dict(v=v, mtu=mtu, sack=True, cc='', deadline_ms=45000, seed=7000 + k, flags={}, tag='bidi-bulk-%d-mtu%d-%s' % (k, mtu, lossy),
                   a=dict(writes=[tot], shutdown=True), b=dict(writes=[tot], shutdown=True), a2b=dict(), b2a=dict())
@@ -71,8 +83,8 @@ def run(ctx):
         big, small = rng.choice([1500, 1500, 9000]), [100, 300, 576, 200, 1000, 68][k % 6]
         ma, mb = (big, small) if k % 2 == 0 else (small, big)
         sc = dict(v=4, mtu=ma, mtu_b=mb, sack=(k % 3 == 0), cc='', deadline_ms=45000, seed=7500 + k, flags={}, tag='asym-mtu-%d-a%d-b%d' % (k, ma, mb),
-                  a=dict(writes=tcplib.chunks(rng, rng.choice([3000, 12000]), 5000), shutdown=True),
-                  b=dict(writes=tcplib.chunks(rng, rng.choice([3000, 12000]), 5000), shutdown=True),
+                  a=dict(writes=tcplib.chunks(rng, rng.choice([1500, 4000] if min(ma, mb) < 200 else [3000, 12000]), 5000), shutdown=True),
+                  b=dict(writes=tcplib.chunks(rng, rng.choice([1500, 4000] if min(ma, mb) < 200 else [3000, 12000]), 5000), shutdown=True),
                   a2b=dict(loss=rng.choice([0, 0.03]), budget=3), b2a=dict(loss=rng.choice([0, 0.03]), budget=3))
         scs.append(sc)
     segs, stats, rep = tcplib.run_pair(ctx, drv, scs, ['C04'], 'c04', what='TCP window/MSS behaviour', classify=tcplib.classify_all)
@@ -89,7 +101,7 @@ def run(ctx):
     ctx.sample(dict(kind='scenario', scenario=scs[0]))
     ctx.sample(dict(kind='trace', events=tcplib.sample_trace(segs[0], 12)))
     # ---- the same clauses against a scripted raw peer (ACK patterns / windows / options two real stacks never produce)
-    rawpeer.raw_peer(ctx, ['C04'], 60, 400)
+    rawpeer.raw_peer(ctx, ['C04'], 48, 400)
     # ---- binding self-test: shrink a recorded window so that later data lies beyond the edge; move an advertised edge left
     def b_acks(s):
         return [i for i, e in enumerate(s) if e['ev'] == 'emit' and e['e'] == 'b' and 'A' in e.get('flags', '') and 'S' not in e.get('flags', '') and 'R' not in e.get('flags', '') and e.get('wnd', 0) > 64]
